@@ -39,7 +39,7 @@ LEVEL_OF = {
 }
 DET_SLICE = 40
 WALL_CAP = {"quick": 420.0, "thorough": 5400.0}
-MAX_SIGS_MINIMISED = 6
+MAX_SIGS_MINIMISED = 24
 SHRINK_EXEC_BUDGET = 2000
 SHRINK_WALL = 90.0
 
